@@ -102,7 +102,7 @@ prop("C09", "exploration",
      required_hist=["rejected:armor_decode", "accepted:deser_slatepack+decrypt+get_slate", "rejected:foreign-rpc:body", "rejected:owner-rpc:plaintext-body", "rejected:wallet.seed(open_wallet)", "rejected:get_stored_tx(file)"])
 
 HIST_RULE = ("random interleaved histories over 2 wallets x 2 accounts with up to 3-4 slates in flight (sends, late-locked sends, invoices, "
-             "self-sends; mining to either wallet or a neutral miner; refreshes incl. injected node failures; cancels; wallet restarts; "
+             "self-sends and - for C04 and C12 - invoices a wallet pays itself; mining to either wallet or a neutral miner; refreshes incl. injected node failures; cancels; wallet restarts; "
              "duplicated and re-ordered deliveries where the property quantifies over them), every call bracketed in an event log and "
              "followed by the monitors; evaluations = steps executed; distinct = (slates in flight, locked, finalized, last operation) shapes "
              "and judged book states; non-trivial = all steps (each is followed by a monitor pass)")
